@@ -588,6 +588,13 @@ def judge_c15(ctx, idx, op, impl, mi, ms, reason):
                 x.msg = "a shipped definition with a recognised type cannot encode and decode a value of its declared type"
         return f
     f = same(ctx, idx, op, impl, mi, "Dict.loadDoc/tyOfName <-> parse()")
+    lab = label_kv(ctx.case_label)
+    if op[0] == "dget" and (ctx.case_label or "").split(" ")[2:3] == ["element"]:
+        ctx.count("shipped_element")
+        want = "%s,%s,%s,%s,%s" % (op[1], op[2], lab.get("name", ""), lab.get("ty", ""), lab.get("m", ""))
+        if impl != want:
+            f.append(Finding("property", idx, "a definition of a shipped dictionary does not load: the document declares (%s) but the loaded dictionary has (%s) under that key" % (want, impl), expected=want, observed=impl, name="C15_names"))
+        return f
     if op[0] == "dget":
         ctx.count("dget_" + (impl.split(",")[3] if "," in impl else impl))
         if f:
@@ -668,11 +675,52 @@ def judge_c17(ctx, idx, op, impl, mi, ms, reason):
     return f
 
 
+def wire_walk(b, nodes, exact):
+    """independent walk over the AVPs in `b` (RFC 6733 section 4.1 framing only): do the dumped AVPs `nodes` appear with
+    the same code, vendor and length in the same order (recursively for the AVPs the dump shows as groups)?
+    `exact`: the octets must hold exactly these AVPs; otherwise `nodes` may continue beyond them (AVPs added later)."""
+    off = 0
+    k = 0
+    while off + 8 <= len(b):
+        if k >= len(nodes):
+            return "the wire carries more AVPs than the accessor lists"
+        code = int.from_bytes(b[off:off + 4], "big")
+        fl = b[off + 4]
+        ln = int.from_bytes(b[off + 5:off + 8], "big")
+        hl = 12 if fl & 0x80 else 8
+        if ln < hl or off + ln > len(b):
+            return None     # not walkable by length fields alone (finding F1 territory): no verdict
+        vendor = str(int.from_bytes(b[off + 8:off + 12], "big")) if fl & 0x80 else "-"
+        n = nodes[k]
+        if (str(code), vendor, ln) != (n["code"], n["vendor"], n["len"]):
+            return "position %d: the wire has AVP (%d, %s) of length %d, the accessor lists (%s, %s) of length %d" % (k, code, vendor, ln, n["code"], n["vendor"], n["len"])
+        if n["ty"] == "grp":
+            r = wire_walk(b[off + hl:off + ln], n["members"], True)
+            if r:
+                return "in group (%d, %s): %s" % (code, vendor, r)
+        off += ln + (-ln) % 4
+        k += 1
+    if exact and k != len(nodes):
+        return "the accessor lists %d AVPs, the wire carries %d" % (len(nodes), k)
+    return None
+
+
 def judge_c18(ctx, idx, op, impl, mi, ms, reason):
     f = same(ctx, idx, op, impl, mi, "Impl.Msg.getAvp/Avp.getTyped <-> get_avp/get_avps/typed getters")
+    if op[0] == "decode":
+        # the frame the message was decoded from: the accessors must list its AVPs in wire order
+        ctx.case_state["wire"] = bytes.fromhex(op[1]) if impl.startswith("ok") and len(op) > 1 else None
+    elif op[0] in ("new", "reencode", "mload"):
+        ctx.case_state["wire"] = None
     if op[0] == "dump":
         ctx.last_dump = parse_msg(impl) if impl.startswith("M(") else None
         ctx.count("dump")
+        w = ctx.case_state.get("wire")
+        if w is not None and ctx.last_dump is not None and len(w) >= 20:
+            ctx.count("dump_of_decoded")
+            r = wire_walk(w[20:], ctx.last_dump["avps"], False)
+            if r:
+                f.append(Finding("property", idx, "AVP accessors of a decoded message do not follow the wire order: " + r, expected="wire order", observed=impl[:300], name="C18_decoded_order"))
     elif op[0] == "get" and ctx.last_dump is not None:
         codes = [a["code"] for a in ctx.last_dump["avps"]]
         want = str(codes.index(op[1])) if op[1] in codes else "-"
